@@ -63,7 +63,7 @@ def handle (line : String) : String :=
       | none => "bad-op"
   | "within" :: a :: b :: _ => match strOfHex a, strOfHex b with
       | some x, some y => if isWithin x y then "OK 01" else "OK 00" | _, _ => "bad-op"
-  | op :: _ => if op = "untar" ∨ op = "layer" ∨ op = "untar-chroot" ∨ op = "layer-chroot" then handleFs ws else if op = "tar" ∨ op = "tar-chroot" then handlePack ws else if op = "export" then handleExport ws else "bad-op"
+  | op :: _ => if op = "untar" ∨ op = "layer" ∨ op = "untar-chroot" ∨ op = "layer-chroot" then handleFs ws else if op = "tar" ∨ op = "tar-chroot" then handlePack ws else if op = "export" then handleExport ws else if op = "changes" then handleChanges ws else "bad-op"
   | _ => "bad-op"
 
 partial def loop (h : IO.FS.Stream) (out : IO.FS.Stream) : IO Unit := do
